@@ -62,7 +62,7 @@ class TapeProp(object):
         return self._avoid_empty
 
     def budget(self, tier):
-        return 3600 if tier == "quick" else 120_000
+        return (6000 if tier == "quick" else 150_000) if self.judge == "C06" else (10_000 if tier == "quick" else 250_000)
 
     def selfcheck(self):
         return RT.validate()
@@ -129,6 +129,9 @@ class TapeProp(object):
                                 "blocks": rng.choice([None, None, [255], [1], [rng.randint(1, 255)],
                                                       [rng.randint(1, 255), rng.randint(1, 255), rng.randint(1, 255)]]),
                                 "prefix": rng.choice([None, None, None, [20, 0], [64, 16], [1, 1], [300, 128]])})
+                    if fd["len"] > 4096 and ops[-1]["blocks"] and min(ops[-1]["blocks"]) < 64:
+                        # tiny blocks (each with its own leader when gapped) on a long file make a tape of tens of megabytes
+                        ops[-1]["blocks"] = [rng.randint(100, 255)]
                 else:
                     ops.append({"op": kind})
         return {"family": family, "ops": ops}
@@ -248,7 +251,9 @@ class TapeProp(object):
             else:
                 raise HarnessError("unknown op %r" % kind)
 
-            # ---- invariants after every op ----
+            # ---- invariants after every op (disk-sized tapes: only once the tape is complete; listing 180 KB costs seconds) ----
+            if case["family"].startswith("big_") and k + 1 < len(case["ops"]) - 1:
+                continue
             if self.judge == "C06":
                 self.check_listing(res, w, CassetteFile, st, k)
             else:
